@@ -177,13 +177,20 @@ func solvePortfolio(file string, timeoutS int, agree bool) (SolverResult, []Solv
 	go func() { wg.Wait(); close(ch) }()
 	var all []SolverResult
 	best := SolverResult{Status: "unknown"}
+	definite := 0
 	for r := range ch {
 		all = append(all, r)
+		if r.Status != "unknown" {
+			definite++
+		}
 		if best.Status == "unknown" && r.Status != "unknown" {
 			best = r
 			if !agree {
 				cancel()
 			}
+		}
+		if agree && definite >= 2 {
+			cancel() // two independent definite answers are enough for the agreement check
 		}
 	}
 	if best.Status == "unknown" && len(all) > 0 {
